@@ -739,6 +739,56 @@ func Run(tier string) int {
 	rep.Coverage["depth_bound"] = depth
 	rep.Coverage["crash_depth"] = crashDepth
 	stats := e.stats
+	// record layouts and chains of reopens: two streams, two lists, every order of stores (a second
+	// store of a stream leaves a superseded record behind), invalidations and reopens two levels
+	// deeper than the main exploration - the load-time scan (duplicate resolution, free-space
+	// accounting, compaction at load) sees every arrangement of live, superseded and invalidated
+	// records, and what it writes back is read again by the next reopen
+	{
+		le := newEnv(rep, smallLists(tier)[:2], 0)
+		le.stats, le.tally = stats, e.tally
+		var keep []op
+		for _, o := range le.ops {
+			switch o.kind {
+			case "store":
+				if o.id <= 1 && !(o.id == 1 && o.list == 1) {
+					keep = append(keep, o)
+				}
+			case "invalidate":
+				if o.mask <= 3 {
+					keep = append(keep, o)
+				}
+			case "reopen":
+				keep = append(keep, o)
+			}
+		}
+		le.ops = keep
+		ldepth := 7
+		lbudget := 40 * time.Second
+		if tier == "thorough" {
+			ldepth, lbudget = 9, 4*time.Minute
+		}
+		le.deadline = time.Now().Add(lbudget)
+		lst := mc.BFS(le.spec(), ldepth, 0, le.deadline, rep)
+		le.cleanup()
+		rep.Coverage["layout_states"] = lst.States
+		rep.Coverage["layout_transitions"] = lst.Transitions
+		rep.Coverage["layout_depth_bound"] = ldepth
+		rep.Coverage["layout_depth_completed"] = lst.DepthComplete
+		rep.Coverage["layout_ops"] = len(le.ops)
+		rep.Coverage["layout_rule"] = "second BFS over store(0,c1) store(0,alt) store(1,c1) invalidate{0} invalidate{1} invalidate{0,1} reopen to the given depth, same oracle after every operation (no truncation checks)"
+		if lst.CapHit != "" {
+			rep.Coverage["exhaustive"] = false
+			caps, _ := rep.Coverage["caps_hit"].([]string)
+			rep.Coverage["caps_hit"] = append(caps, "layout exploration: "+lst.CapHit)
+		}
+		rep.Coverage["states"] = st.States + lst.States
+		rep.Coverage["transitions"] = st.Transitions + lst.Transitions
+		rep.Coverage["traces_validated_against_impl"] = st.Transitions + lst.Transitions
+		rep.Coverage["evaluations"] = st.Transitions + lst.Transitions
+		st.States += lst.States
+		st.Transitions += lst.Transitions
+	}
 	var bigSt *mc.BFSStats
 	if tier == "thorough" {
 		// run-time compaction needs 16 MiB of invalidated records: separate, smaller alphabet
